@@ -49,6 +49,14 @@ func c09FaultDrivers() []concParams {
 	out = append(out, concParams{Name: "merged-group-fills-buffer+journal-create-fault", Cfg: "wide/bytewise", Pre: fill, Clients: [][]string{{"put:a"}, {"put:b"}, {"get:a"}}, Faults: f(vstor.KCreate, storage.TypeJournal, 1, 1, vstor.ModeFail), QB: 2, TB: 3})
 	out = append(out, concParams{Name: "merged-group-fills-buffer-vs-close", Cfg: "wide/bytewise", Pre: fill, Clients: [][]string{{"put:a"}, {"put:b"}, {"close"}}, QB: 2, TB: 3})
 	out = append(out, concParams{Name: "merged-group-fills-buffer+table-create-fault", Cfg: "wide/bytewise", Pre: append([]string{"put:c", "put:c", "put:c", "put:c", "put:c"}, fill...), Clients: [][]string{{"put:a"}, {"put:b"}, {"put:c"}}, Faults: f(vstor.KCreate, storage.TypeTable, 1, 3, vstor.ModeFail), QB: 2, TB: 3})
+	// a table (or one of its blocks) that cannot be opened / read while two readers ask for it
+	// at the same time: the loser of the race waits for the winner's failed fill
+	cold := []string{"put:a", "put:b", "cr", "q", "re"}
+	for nth := 1; nth <= 2; nth++ {
+		add(fmt.Sprintf("cold-table-open-fault#%d-vs-two-readers", nth), "flushy/bytewise", cold, [][]string{{"get:a"}, {"get:a"}, {"get:b"}}, f(vstor.KOpen, storage.TypeTable, nth, 1, vstor.ModeFail))
+		add(fmt.Sprintf("cold-table-read-fault#%d-vs-two-readers", nth), "flushy/bytewise", cold, [][]string{{"get:a"}, {"get:a"}, {"iterscan"}}, f(vstor.KRead, storage.TypeTable, nth, 1, vstor.ModeFail))
+	}
+	out[len(out)-1].QB, out[len(out)-2].QB, out[len(out)-3].QB, out[len(out)-4].QB = 2, 2, 2, 2
 	add("compact+manifest-write-fault-vs-tr", "flushy/bytewise", []string{"put:a", "put:b"}, [][]string{{"cr"}, {"tr:+a,+b"}, {"put:c"}}, f(vstor.KWrite, storage.TypeManifest, 1, 1, vstor.ModeFail))
 	return out
 }
